@@ -15,7 +15,8 @@ LEVEL = 'exploration'
 RULE = ('Enumerated slices: all strings of length<=6 over {0,7,-,.,blank,A} x all types; YYYYMMDD over 13 boundary years x '
         'month 00-13 x day 00-32 (DT,D8); all YYMMDD (DT,D6); all HHMM and HHMMSS, boundary HHMMSS+1..3 digits (TM); '
         '12-char date+HHMM; RD8 with 0..3 hyphens at every position; every code point 0-255 and samples above x charset B/E x '
-        'version 00401/00501 (ID,AN); plus Hypothesis text over mixed alphabets x all types (never-raises and agreement). '
+        'version 00401/00501 (ID,AN); every valid exemplar of every admissible length of the numeric/date/time types with each of '
+        '280 code points (0-255, non-ASCII digits, signs and points) substituted and inserted at every position; plus Hypothesis text over mixed alphabets x all types (never-raises and agreement). '
         'Oracle = independent recogniser from the statement. A case (type,value,charset,icvn) is non-trivial when it lies on a '
         'boundary: some pair of types disagrees on it, or the reference rejects it for a field-range/calendar/character reason '
         '(not merely length), or it is accepted; distinct by (type,charset,icvn,value).')
@@ -205,6 +206,23 @@ def _values(spec, seed, tier):
             yield 'codepoint-num', ['DT', 'D8'], '2004010' + c
             yield 'codepoint-num', ['TM'], '123' + c
             yield 'codepoint-num', ['RD8'], '20040101-2004010' + c
+    elif k == 'subst':
+        # every valid exemplar of every admissible length x every position x every hostile code point, replaced and inserted:
+        # a recogniser that lets one foreign character through at one position of one length shows here
+        cps = list(range(0, 256)) + [0x100, 0x17F, 0x391, 0x3C0, 0x660, 0x663, 0x669, 0x6F0, 0x6F5, 0x966, 0x96B, 0x9E6, 0xE50, 0x2028, 0x2212,
+                                     0xFF0D, 0xFF0E, 0xFF10, 0xFF17, 0xFF21, 0xFFFD, 0x1D7CE, 0x1D7D8, 0x1F600]
+        ex = {'N': ['7', '12345', '-12', '000'], 'N0': ['42', '-5'], 'N2': ['1250', '-1'], 'R': ['12.5', '-.5', '1.0', '7', '-3', '0.000'],
+              'DT': ['20040229', '040229', '200402291230'], 'D8': ['20040229', '19991231'], 'D6': ['040229', '991231'],
+              'TM': ['1230', '123045', '1230455', '12304555', '0000', '235959', '2359599', '23595999'],
+              'RD8': ['20040101-20040229', '18000101-99991231']}
+        for typ in sorted(ex):
+            for base in ex[typ]:
+                for cp in cps:
+                    c = chr(cp)
+                    for i in range(len(base) + 1):
+                        yield 'subst', [typ], base[:i] + c + base[i:]
+                        if i < len(base):
+                            yield 'subst', [typ], base[:i] + c + base[i + 1:]
     else:
         raise core.HarnessError('slice ' + k)
 
@@ -287,7 +305,7 @@ def _hyp(spec, seed, tier):
 
 def shards(tier, seed):
     s = [{'kind': 'alpha6', 'first': c} for c in ['0', '7', '-', '.', ' ', 'A']]
-    s += [{'kind': 'ymd8'}, {'kind': 'hhmm'}, {'kind': 'short'}, {'kind': 'hyphen'}, {'kind': 'charset'}]
+    s += [{'kind': 'ymd8'}, {'kind': 'hhmm'}, {'kind': 'short'}, {'kind': 'hyphen'}, {'kind': 'charset'}, {'kind': 'subst'}]
     bound_yy = {0, 49, 50, 99, 4, 96}
     bound_hh = {0, 23, 24, 99}
     if tier == 'thorough':
